@@ -47,7 +47,10 @@ MANIFEST = {
                   "API are pairwise different). The byte-level container model is strict (a child's declared size must be what its "
                   "decoder consumes): the real SliceReader decoders advance by the computed size and accept some streams the model "
                   "refuses (compared one-sidedly on mutated moofs). Beyond the mdat payload TrunBox.GetFullSamples slices up to the "
-                  "capacity of mdat.Data where the model says panic (outside every theorem's domain; excluded from the comparison).",
+                  "capacity of mdat.Data where the model says panic (outside every theorem's domain; excluded from the comparison). "
+                  "encode_frag mirrors MoofBox.Encode BEFORE repo fix 1704b4c in two corners that no theorem's domain and no generated case "
+                  "reaches: a fragment without any traf (model Panic, Go now nil) and an unset data offset in a LATER traf's trun (model Panic, "
+                  "Go now the error); results Ok are unaffected. Not changed in this round: coq/c11 restates the definition's text.",
 }
 
 HANDLED = ("O", "H", "D", "G", "B", "M", "L")   # case kinds the model driver recomputes
